@@ -1069,10 +1069,10 @@ pub fn drop_after_write_scenario(ch: &mut Chooser, _thorough: bool) -> Exec {
 /// the request is retransmitted although it has arrived, and the duplicate reaches the
 /// lingering socket. The connector must get the whole reply and then EOF, without an error.
 pub fn reply_then_drop_scenario(ch: &mut Chooser, _thorough: bool) -> Exec {
-    let lat: u32 = 1 + ch.choose("one_way_latency_rounds_minus_1", 4) as u32;
+    let lat: u32 = 1 + ch.choose("one_way_latency_rounds_minus_1", 3) as u32;
     let thr: u32 = *ch.of("retx_threshold", &[1u32, 2, 3]);
     let max: u32 = 8;
-    let caps = *ch.of("send_recv_caps", &[(64usize, 8usize), (8, 64), (4, 4), (512, 512)]);
+    let caps = *ch.of("send_recv_caps", &[(64usize, 8usize), (4, 4), (512, 512)]);
     let mtu = *ch.of("mtu", &[42u32, 1500]);
     let q: usize = *ch.of("request_bytes", &[1usize, 6]);
     let n: usize = *ch.of("reply_bytes", &[1usize, 12, 100]);
